@@ -110,17 +110,19 @@ inductive AR where
   | fail | trap | ok (pos : Nat)
 deriving DecidableEq, Repr
 
-/-- ICASE literal comparison of `ratom_match` -/
-def chrIcase (lit subj : Bytes) (pos : Nat) : Nat → Nat → AR
-  | 0, _ => AR.trap
-  | f + 1, k =>
+/-- ICASE literal comparison of `ratom_match`: `k` walks the literal, `r` the subject, each by its
+    own character lengths -/
+def chrIcase (lit subj : Bytes) : Nat → Nat → Nat → AR
+  | 0, _, _ => AR.trap
+  | f + 1, k, r =>
     match rdb lit k with
     | none => AR.trap
-    | some 0 => AR.ok (pos + k)
-    | some b =>
-      match decAt lit k, decAt subj (pos + k) with
+    | some 0 => AR.ok r
+    | some _ =>
+      match decAt lit k, decAt subj r with
       | some c1, some c2 =>
-        if foldc true c1 != foldc true c2 then AR.fail else chrIcase lit subj pos f (k + rxLen lit k)
+        if foldc true c1 != foldc true c2 || foldc true c2 == 0 then AR.fail
+        else chrIcase lit subj f (k + rxLen lit k) (r + rxLen subj r)
       | _, _ => AR.trap
 
 /-- the first byte of the character before `pos` (`uc_beg(o, s - 1)`), for `pos > 0` -/
@@ -140,7 +142,7 @@ def atomMatch (a : Atom) (subj : Bytes) (flg : Nat) (pos : Nat) : AR :=
     | AK.chr =>
       if !icase then
         if (subj.drop pos).take a.s.length == a.s then AR.ok (pos + a.s.length) else AR.fail
-      else chrIcase a.s subj pos (a.s.length + 2) 0
+      else chrIcase a.s subj (a.s.length + 2) 0 pos
     | AK.any =>
       if cur == 0 || (cur == 10 && nl) then AR.fail else AR.ok (pos + rxLen subj pos)
     | AK.brk =>
